@@ -90,7 +90,7 @@ func main() {
 		n := f.size(thorough)
 		famSizes[f.name] = n
 		step := 4000
-		if f.name == "history" {
+		if f.name == "history" || f.name == "restart" {
 			step = 400
 		}
 		if f.name == "c02" {
@@ -331,7 +331,7 @@ func main() {
 			}
 		}
 	}
-	run.SetRule("deterministic families over ~40 well-formed seeds per protocol (ipfix, netflow v9, netflow v5, sflow): every truncation length of data and template datagrams; every even offset × 16-bit boundary set (every 4-aligned offset × 32-bit set for sflow); every set id 0..300 and sflow sample/record type word incl. enterprise-specific; the complete sampled-header family (header protocol × outer/inner ethertype × L4 × length 0..80); every extended-router length 0..40 and the 32-bit boundary set; every 16-bit mutation of a template datagram followed by ALL data seeds on one cache; C02 constructions (reserved ids × body lengths, degenerate templates, lying counts and lengths, maximal legitimate record counts at 65507 octets); plus seeded random mutations/histories up to 20 datagrams with all exporter address forms. Each datagram is processed as the workers do (Decode + JSON encoding) in child executors under allocation/CPU/record meters. Cases are distinct by construction (family, index); non-trivial = the decoder got past the header for at least one datagram of the case")
+	run.SetRule("deterministic families over ~40 well-formed seeds per protocol (ipfix, netflow v9, netflow v5, sflow): every truncation length of data and template datagrams; every even offset × 16-bit boundary set (every 4-aligned offset × 32-bit set for sflow); every set id 0..300 and sflow sample/record type word incl. enterprise-specific; the complete sampled-header family (header protocol × outer/inner ethertype × L4 × length 0..80); every extended-router length 0..40 and the 32-bit boundary set; every 16-bit mutation of a template datagram followed by ALL data seeds on one cache; the same across a save-and-reload of the template cache (restart); C02 constructions (reserved ids × body lengths, degenerate templates, lying counts and lengths, maximal legitimate record counts at 65507 octets); plus seeded random mutations/histories up to 20 datagrams with all exporter address forms. Each datagram is processed as the workers do (Decode + JSON encoding) in child executors under allocation/CPU/record meters. Cases are distinct by construction (family, index); non-trivial = the decoder got past the header for at least one datagram of the case")
 	if prop == "C02" {
 		run.Assume("non-termination is decided only as 'exceeds 10 s CPU or 256 MiB allocation while one datagram is being processed'; allocation bound 32 KiB + 1 KiB per received octet")
 	}
